@@ -81,10 +81,17 @@ class Formula:
         t = render(n)
         if t in ("(x < 0)",):
             return self.branch == "neg"
-        if t in ("(value < (1 + bound_))", "(value > (-1 + bound_))"):
-            return self.branch == "neg"
-        if t in ("(value >= (1 + bound_))", "(value <= (-1 + bound_))"):
-            return self.branch == "nonneg"
+        import re as _re
+        m = _re.match(r"^\(value (<|<=|>|>=) \((1|-1) \+ bound_\)\)$", t)
+        if m:
+            # the seam between the logarithmic and the linear piece sits at bound_ + 1 (positive orientation) / bound_ - 1
+            # (negative); three regions along the value axis: log side ('neg'), the seam itself, linear side ('nonneg')
+            op, sgn = m.group(1), m.group(2)
+            if sgn == "1":
+                table = {"<": ("neg",), "<=": ("neg", "seam"), ">": ("nonneg",), ">=": ("seam", "nonneg")}
+            else:
+                table = {">": ("neg",), ">=": ("neg", "seam"), "<": ("nonneg",), "<=": ("seam", "nonneg")}
+            return self.branch in table[op]
         if t in ("(value <= bound_)", "(value >= bound_)", "(value <= lowerBound_)", "(value >= upperBound_)"):
             return False          # inside the domain
         raise AnalysisBroken("E7: region test '%s' is not in the rule table (%s)" % (t, self.f.key))
@@ -255,6 +262,23 @@ def _d1(chk, fb):
                 if val <= 0 and positive:
                     pt_bad = xv
             n += 1
+    # the seam value itself (bound_ + 1 / bound_ - 1) must be mapped, by exactly one piece, to the coordinate 0
+    for positive in (True, False):
+        S = {"x": x, "value": v, "scale_": s, "bound_": b}
+        fs = Formula(setv, {"positive_": positive}, "seam", S)
+        fs.run(setv.body)
+        tag = "positive" if positive else "negative"
+        seam = b + 1 if positive else b - 1
+        n += 1
+        if len(fs.sets) != 1:
+            chk.refuted("D1", setv.key, "R-seam[%s]" % tag, setv.loc(), "setOriginalValue: the value exactly at the seam between the logarithmic and the linear piece (bound_ %s 1) is handled by %d of the pieces: %s" % (
+                "+" if positive else "-", len(fs.sets), "the transformed coordinate keeps its previous value" if not fs.sets else "two assignments"), witness={"input": "value = bound %s 1" % ("+" if positive else "-")})
+        else:
+            at = sp.simplify(fs.sets[0].subs({v: seam}).subs({s: 1}))
+            if at == 0:
+                chk.proved("D1", setv.key, "R-seam[%s]" % tag, setv.loc(), "value = bound_ %s 1 maps to the coordinate 0" % ("+" if positive else "-"))
+            else:
+                chk.refuted("D1", setv.key, "R-seam[%s]" % tag, setv.loc(), "setOriginalValue maps the seam value bound_ %s 1 to %s instead of 0 (unit scale)" % ("+" if positive else "-", at), witness={"input": "value = bound %s 1" % ("+" if positive else "-")})
     # ---- interval transform
     get, setv, d1, d2 = [fb.q1(IT + "::" + m) for m in ("getOriginalValue", "setOriginalValue", "getFirstOrderDerivative", "getSecondOrderDerivative")]
     ctor = [c for c in fb.q(IT + "::IntervalTransformedParameter") if not c.rec.get("copyctor")][0]
